@@ -13,7 +13,10 @@ RULE = ("(a) h_init, one process per case: histories of 3-20 init/work/fini cycl
         "trailing junk, control characters incl. newline, zero, negatives; oracle: exit 0, 'OK', effective worker count and "
         "stack size equal the documented fallback (or the numeric prefix atoi accepts when it is positive and usable). "
         "(c) h_cpulist: unit harness on myth_parse_cpu_list with grammar-generated and mutated strings against a reference "
-        "parser. Non-trivial = an init case with >=2 cycles or a race, an env case with at least one malformed variable, or a "
+        "parser. (d) h_firstuse, one process per public entry point (31 of them: self, mutex, cond signal/broadcast, barrier, once, keys, "
+        "yield, sleeps, felock, join counter, cancel state, spin, wsapi_rand, create ...): that entry point is the FIRST call into the "
+        "library; it must return, exactly one initialisation runs (by it or by the following create), worker count and OS-thread "
+        "count are the requested ones, fini leaves nothing behind. Non-trivial = an init case with >=2 cycles or a race, an env case with at least one malformed variable, or a "
         "cpulist run; distinct = distinct case descriptors.")
 
 NCPU = os.cpu_count() or 16
@@ -147,10 +150,22 @@ def run(b, tier, seed, t0):
         env.update(core.ASAN_ENV)
         cases.append(Case([ex_cpu, "seed=%d" % (seed * 100151 + i), "cases=%d" % (20000 if tier == "quick" else 200000)], env=env, timeout=300,
                           weight=1, tag="cpulist:%d" % i, meta={"kind": "cpulist", "desc": "cpulist%d" % i, "variant": "asan", "nontrivial": True}))
+    # (d) first use: every public entry point as the very first call into the library
+    ex_fu = {"h0": b.harness("h_firstuse.c", lib0), "asan": b.harness("h_firstuse.c", liba)}
+    NFU = 31
+    for fn in range(NFU):
+        for v in (["h0", "asan"] if tier == "thorough" or fn % 2 == 0 else ["h0"]):
+            nwf = r.choice([1, 2, 3, 5, 8])
+            env = {"VERIF_SEED": seed, "MYTH_VERIF_WATCHDOG": 0}
+            if v == "asan":
+                env.update(core.ASAN_ENV)
+            cases.append(Case([ex_fu[v], "fn=%d" % fn, "workers=%d" % nwf], env=env, timeout=120, weight=2,
+                              tag="firstuse:%s:fn%d:w%d" % (v, fn, nwf),
+                              meta={"kind": "firstuse", "desc": "fn%d" % fn, "variant": v, "nontrivial": True}))
     core.run_cases(cases)
     extra = []
     descs = set()
-    tot = {"init": {}, "env": {}, "cpulist": {}}
+    tot = {"init": {}, "env": {}, "cpulist": {}, "firstuse": {}}
     for c in cases:
         if c.skipped:
             continue
@@ -185,7 +200,7 @@ def run(b, tier, seed, t0):
     samples += [{"case": c.tag, "env": {k: v for k, v in c.env.items() if k.startswith("MYTH_") and not k.startswith("MYTH_VERIF")}, "stdout": (c.out.splitlines() or [""])[0]}
                 for c in cases if c.meta["kind"] == "env"][:4]
     cov = {"evaluations": len(cases), "distinct_nontrivial": len(descs), "rule": RULE, "samples": samples,
-           "init_totals": tot["init"], "cpulist_totals": tot["cpulist"],
+           "init_totals": tot["init"], "cpulist_totals": tot["cpulist"], "firstuse_totals": tot["firstuse"],
            "env_cases": sum(1 for c in cases if c.meta["kind"] == "env"),
            "env_cases_with_malformed_values": sum(1 for c in cases if c.meta["kind"] == "env" and c.meta["nontrivial"])}
     assumptions = ["well-formed but unusable requests (stack of a few bytes, thousands of workers, numbers >= 10^8) are excluded as the property says",
